@@ -64,7 +64,9 @@ def translate():
             rc2, out2 = sh(['python3', tl, '--repo', REPO, '--out', tmp2])
             broken += [l for l in out2.splitlines() if l.startswith('BROKEN')]
             cur2 = os.path.join(COQ, 'theories', 'Gen', 'LexTables.v')
-            if os.path.exists(tmp2) and os.path.exists(cur2) and open(tmp2).read() != open(cur2).read():
+            def differs():
+                return os.path.exists(tmp2) and os.path.exists(cur2) and open(tmp2).read() != open(cur2).read()
+            if differs() and (time.sleep(3) or differs()):       # re-read once: a concurrent main-mode run may be rewriting the shared file
                 broken.append('BROKEN lexical tables changed (theorems about the generated lexical tables would have to be re-proved)')
         return broken, out
     rc, out = sh(['python3', os.path.join(VERIF, 'tools', 'translate.py'), '--repo', REPO])
@@ -242,26 +244,36 @@ def audit_sources():
     return bad
 
 def property_file_report(pid):
-    """compile-time output of Properties/<pid>.v: theorem names and their Print Assumptions"""
+    """compile-time output of Properties/<pid>.v (and companion files Properties/<pid><suffix>.v listed in coq/FILES):
+    theorem names and their Print Assumptions"""
     vf = os.path.join(COQ, 'theories', 'Properties', pid + '.v')
     if not os.path.exists(vf):
         return None
-    src = strip_comments(open(vf, encoding='utf-8').read())
-    names = re.findall(r'^\s*(?:Theorem|Lemma|Corollary|Example)\s+(\w+)', src, re.M)
-    with Lock('model'):
-        rc, out = sh(['coqc', '-Q', 'theories', 'SJ', '-w', '-notation-overridden,-deprecated-hint-without-locality,-deprecated-instance-without-locality', vf], cwd=COQ, timeout=1800)
-    axioms = set()
-    for m in re.finditer(r'^\s*([A-Za-z_][\w.]*)\s*:', out, re.M):
-        # lines of the form "Name : type" after "Axioms:" blocks
-        pass
-    blocks = out.split('Axioms:')
-    for b in blocks[1:]:
-        for line in b.split('\n'):
-            mm = re.match(r'^([A-Za-z_][\w.]*)\s*$', line.strip()) or re.match(r'^([A-Za-z_][\w.]*)\s*:', line)
-            if mm and not line.startswith(' ' * 3):
-                axioms.add(mm.group(1))
-    closed = out.count('Closed under the global context')
-    return {'rc': rc, 'names': names, 'axioms': sorted(axioms), 'closed': closed, 'out': out[-4000:]}
+    files = [vf]
+    try:
+        listed = [l.strip() for l in open(os.path.join(COQ, 'FILES')) if l.strip() and not l.startswith('#')]
+    except OSError:
+        listed = []
+    for l in listed:
+        m = re.match(r'theories/Properties/(%s[a-z]+)\.v$' % re.escape(pid), l)
+        if m:
+            files.insert(0, os.path.join(COQ, l))
+    names, axioms, closed, rc_all, outs = [], set(), 0, 0, ''
+    for f in files:
+        src = strip_comments(open(f, encoding='utf-8').read())
+        names += re.findall(r'^\s*(?:Theorem|Lemma|Corollary|Example)\s+(\w+)', src, re.M)
+        with Lock('model'):
+            rc, out = sh(['coqc', '-Q', 'theories', 'SJ', '-w', '-notation-overridden,-deprecated-hint-without-locality,-deprecated-instance-without-locality', f], cwd=COQ, timeout=1800)
+        rc_all = rc_all or rc
+        blocks = out.split('Axioms:')
+        for b in blocks[1:]:
+            for line in b.split('\n'):
+                mm = re.match(r'^([A-Za-z_][\w.]*)\s*$', line.strip()) or re.match(r'^([A-Za-z_][\w.]*)\s*:', line)
+                if mm and not line.startswith(' ' * 3):
+                    axioms.add(mm.group(1))
+        closed += out.count('Closed under the global context')
+        outs += out[-4000:]
+    return {'rc': rc_all, 'names': names, 'axioms': sorted(axioms), 'closed': closed, 'out': outs[-6000:]}
 
 # ------------------------------------------------------------------ evidence / replay
 def write_json(path, obj):
